@@ -432,7 +432,34 @@ def run (ctx):
     if call_name(c) == '_remove_specific_entries' and c.args:
       pairs[norm(c.args[0])] = norm(kwarg(c, 'reason', 1))
   lists = [L_ for L_ in q.collected_lists(ree) if L_.name in pairs or any('timed_out' in x for x in L_.cond_strs())]
-  ctx.floor('expiry lists', len(lists), 2)
+  # by evaluation on a sample table (A idle-expired, B hard-expired, C both, D alive): which entries are removed with which reason
+  IDLE_ = ofreg.const_value(repo, ftmod, 'OFPRR_IDLE_TIMEOUT'); HARD_ = ofreg.const_value(repo, ftmod, 'OFPRR_HARD_TIMEOUT')
+  tbl_ = [q.Rec(name='A', idle=True, hard=False), q.Rec(name='B', idle=False, hard=True), q.Rec(name='C', idle=True, hard=True), q.Rec(name='D', idle=False, hard=False)]
+  events_ = []
+  def hook_ (call, env=None):
+    nm_ = call_name(call)
+    if nm_ in ('is_idle_timed_out', 'is_hard_timed_out') and isinstance(call.func, ast.Attribute):
+      try: rc = q.eval_env2(repo, ftmod, call.func.value, env, ft)
+      except Exception: return (False, None)
+      if isinstance(rc, q.Rec): return (True, rc['idle' if 'idle' in nm_ else 'hard'])
+    if nm_ == 'time' or nm_ == '_remove_specific_entries': return (True, None)
+    return (False, None)
+  hook_.wants_env = True
+  def on_node_ (n, e):
+    for c in q.node_calls(n):
+      if call_name(c) == '_remove_specific_entries' and c.args:
+        try:
+          lst = q.eval_env2(repo, ftmod, c.args[0], e, ft); rs = q.eval_env2(repo, ftmod, kwarg(c, 'reason', 1), e, ft)
+          events_.append((tuple(x['name'] for x in lst), rs))
+        except Exception: events_.append('?')
+  done_ = q.paths_under(repo, ftmod, g, q.Env({'self._table': tbl_, ree.params[1] if len(ree.params) > 1 else 'now': 1000.0}, [], hook_), g.entry, [g.exit], ft, limit=40, on_node=on_node_)
+  evaluated = len(done_) == 1 and '?' not in events_ and bool(events_)
+  if evaluated:
+    want_ = [(('A', 'C'), IDLE_), (('B',), HARD_)]
+    ctx.ob('R-AGREE', ree, "each expired entry is removed once, idle expiry taking precedence, with the matching reason", events_ == want_,
+           "A idle, B hard, C both, D alive -> ([A, C], IDLE_TIMEOUT) then ([B], HARD_TIMEOUT)" if events_ == want_ else
+           "for a table with A idle-expired, B hard-expired, C past both timeouts and D alive the sweep removes %s; expected [(A, C) with IDLE_TIMEOUT, (B) with HARD_TIMEOUT]" % (events_,), ree, 'D5')
+  if not evaluated: ctx.floor('expiry lists', len(lists), 2)
   for L_ in lists:
     fs = L_.cond_strs(); lname = L_.name; c = L_.site
     idle = any('is_idle_timed_out' in f and f.endswith(':truthy') for f in fs)
